@@ -29,9 +29,12 @@ static const char *ADDRS[] = {"/a", "/b", "/c", "/dd/e", "/f3", LONG247.c_str(),
 static const char TYPES[] = {'i', 'f', 'c', 'i', 'f', 'i', 'f', 'i'};
 static const int NADDR = 8;
 // a[3] & 1: the event carries the address's other type (an address that takes both, e.g. 'i' and 'f')
-static char type_of(const Op &op) { int a = (int)(((op.a[0] % NADDR) + NADDR) % NADDR); char t = TYPES[a]; if (op.a[3] & 1) t = t == 'f' ? 'i' : 'f'; return t; }
+static char type_of(const Op &op) { int a = (int)(((op.a[0] % NADDR) + NADDR) % NADDR); char t = TYPES[a]; if (op.a[3] & 1) t = t == 'f' ? 'i' : 'f'; if ((op.a[3] & 2) && t != 'c') t = t == 'f' ? 'd' : 'h'; return t; }   // a[3] & 2: the 8-byte flavour of the type (d for f, h for i)
+// values travel as V (int32 or float); the 8-byte types carry the same numbers
+static void put_arg(rtosc_arg_t &a, const V &v) { if (v.t == 'f') a.f = v.f; else if (v.t == 'd') a.d = v.f; else if (v.t == 'h') a.h = v.i; else a.i = v.i; }
+static void get_arg(V &v, char t, const rtosc_arg_t &a) { v.t = t; if (t == 'f') v.f = a.f; else if (t == 'd') v.f = (float)a.d; else if (t == 'h') v.i = (int32_t)a.h; else v.i = a.i; }
 
-static V mkv(char t, int64_t raw) { V v; v.t = t; if (t == 'f') { uint32_t u = (uint32_t)raw; memcpy(&v.f, &u, 4); if (std::isnan(v.f)) v.f = 0.5f; } else if (t == 'c') v.i = (int)(raw & 0x7f); else v.i = (int32_t)raw; return v; }
+static V mkv(char t, int64_t raw) { V v; v.t = t; if (t == 'f' || t == 'd') { uint32_t u = (uint32_t)raw; memcpy(&v.f, &u, 4); if (std::isnan(v.f)) v.f = 0.5f; } else if (t == 'c') v.i = (int)(raw & 0x7f); else v.i = (int32_t)raw; return v; }
 
 struct UndoWorld : World {
     const char *name() const override { return "w_undo"; }
@@ -53,7 +56,7 @@ struct UndoWorld : World {
     }
     std::vector<Op> simpler(const Op &op) const override {
         std::vector<Op> v;
-        if (op.kind == OP_RECORD) { if (op.a[0]) { Op o = op; o.a[0] = 0; v.push_back(o); } if (op.a[3]) { Op o = op; o.a[3] = 0; v.push_back(o); } { int a = (int)(((op.a[0] % NADDR) + NADDR) % NADDR); (void)a; int64_t one = type_of(op) == 'f' ? 0x3f800000 : 1; if (op.a[1] || op.a[2] != one) { Op o = op; o.a[1] = 0; o.a[2] = one; v.push_back(o); } } }
+        if (op.kind == OP_RECORD) { if (op.a[0]) { Op o = op; o.a[0] = 0; v.push_back(o); } if (op.a[3]) { Op o = op; o.a[3] = 0; v.push_back(o); } { int a = (int)(((op.a[0] % NADDR) + NADDR) % NADDR); (void)a; int64_t one = (type_of(op) == 'f' || type_of(op) == 'd') ? 0x3f800000 : 1; if (op.a[1] || op.a[2] != one) { Op o = op; o.a[1] = 0; o.a[2] = one; v.push_back(o); } } }
         else if (op.kind == OP_SEEK) { if (op.a[0] < -1) { Op o = op; o.a[0] = -1; v.push_back(o); } if (op.a[0] > 1) { Op o = op; o.a[0] = 1; v.push_back(o); } }
         else if (op.kind == OP_CLOCK) { for (int64_t c : {1000, 2000, 3000}) if (op.a[0] > c) { Op o = op; o.a[0] = c; v.push_back(o); } }
         return v;
@@ -72,8 +75,8 @@ struct UndoWorld : World {
             Op o; double u = pr.unit();
             if (u < p_rec) {
                 if (evict_mode && pr.chance(0.8)) { Op c; c.kind = OP_CLOCK; c.a[0] = 3000 + (int64_t)pr.below(2000); p.push_back(c); }
-                o.kind = OP_RECORD; int a = (int)pr.below(naddr); if (long_mode && pr.chance(0.3)) a = 5 + (int)pr.below(3); o.a[0] = a; if (mixed_types && TYPES[a] != 'c' && pr.chance(0.3)) o.a[3] = 1;
-                auto val = [&](char t) -> int64_t { if (t == 'f') { float f = (float)((int)pr.below(2001) - 1000) / 8.0f; uint32_t u; memcpy(&u, &f, 4); return u; } if (t == 'c') return (int64_t)pr.below(128); return pr.chance(0.1) ? (int64_t)(int32_t)pr.next() : (int64_t)pr.below(200) - 100; };
+                o.kind = OP_RECORD; int a = (int)pr.below(naddr); if (long_mode && pr.chance(0.3)) a = 5 + (int)pr.below(3); o.a[0] = a; if (mixed_types && TYPES[a] != 'c' && pr.chance(0.3)) o.a[3] = 1; if (mixed_types && TYPES[a] != 'c' && pr.chance(0.25)) o.a[3] |= 2;
+                auto val = [&](char t) -> int64_t { if (t == 'f' || t == 'd') { float f = (float)((int)pr.below(2001) - 1000) / 8.0f; uint32_t u; memcpy(&u, &f, 4); return u; } if (t == 'c') return (int64_t)pr.below(128); return pr.chance(0.1) ? (int64_t)(int32_t)pr.next() : (int64_t)pr.below(200) - 100; };
                 o.a[1] = pr.chance(0.7) && !o.a[3] ? last[a] : val(type_of(o));
                 do { o.a[2] = val(type_of(o)); } while (o.a[2] == o.a[1]);
                 last[a] = o.a[2];
@@ -97,7 +100,7 @@ struct UndoWorld : World {
         std::vector<Emit> emitted;
         hist->setCallback([&](const char *m) {
             Emit e; e.addr = m;
-            if (rtosc_narguments(m) == 1) { char t = rtosc_type(m, 0); rtosc_arg_t a = rtosc_argument(m, 0); e.v.t = t; if (t == 'f') e.v.f = a.f; else e.v.i = a.i; } else e.v.t = '?';
+            if (rtosc_narguments(m) == 1) { char t = rtosc_type(m, 0); rtosc_arg_t a = rtosc_argument(m, 0); get_arg(e.v, t, a); } else e.v.t = '?';
             emitted.push_back(e);
         });
         Model model; uint64_t shape = 0; bool crossed = false; bool had_back = false;
@@ -105,7 +108,7 @@ struct UndoWorld : World {
         auto entry_of = [&](int i, std::string &addr, V &o, V &n) {
             const char *m = hist->getHistory(i); if (strcmp(m, "/undo_change") || rtosc_narguments(m) != 3) return false;
             addr = rtosc_argument(m, 0).s; o.t = rtosc_type(m, 1); n.t = rtosc_type(m, 2); rtosc_arg_t a = rtosc_argument(m, 1), b = rtosc_argument(m, 2);
-            if (o.t == 'f') o.f = a.f; else o.i = a.i; if (n.t == 'f') n.f = b.f; else n.i = b.i; return true; };
+            get_arg(o, o.t, a); get_arg(n, n.t, b); return true; };
         auto real_matches = [&](const Model &m) {
             if (hist->getPos() != m.pos || hist->size() != m.h.size()) return false;
             for (size_t i = 0; i < m.h.size(); i++) { std::string a; V o, n; if (!entry_of((int)i, a, o, n)) return false; if (a != m.h[i].addr || !(o == m.h[i].oldv) || !(n == m.h[i].newv)) return false; }
@@ -119,7 +122,7 @@ struct UndoWorld : World {
             int64_t now_ms = g_clock_ns / 1000000LL;
             if (had_back) {   // robustness configuration after a backwards step: only memory safety and pos <= size <= 20 are claimed
                 if (op.kind == OP_RECORD) { int a = (int)(((op.a[0] % NADDR) + NADDR) % NADDR); char t = type_of(op); V o = mkv(t, op.a[1]), n = mkv(t, op.a[2]); char buf[1024]; char ts[4] = {'s', t, t, 0};
-                    rtosc_arg_t args[3]; args[0].s = ADDRS[a]; if (t == 'f') { args[1].f = o.f; args[2].f = n.f; } else { args[1].i = o.i; args[2].i = n.i; }
+                    rtosc_arg_t args[3]; args[0].s = ADDRS[a]; put_arg(args[1], o); put_arg(args[2], n);
                     rtosc_amessage(buf, sizeof buf, "/undo_change", ts, args); hist->recordEvent(buf); }
                 else hist->seekHistory((int)std::max<int64_t>(-1000, std::min<int64_t>(op.a[0], 1000)));
                 if (hist->size() > 20 || hist->getPos() > hist->size()) { snprintf(b, sizeof b, "op %d: pos=%u size=%zu breaks pos <= size <= 20", opi, hist->getPos(), hist->size()); fail("BOUNDS", b); break; }
@@ -128,7 +131,7 @@ struct UndoWorld : World {
             if (op.kind == OP_RECORD) {
                 int a = (int)(((op.a[0] % NADDR) + NADDR) % NADDR); char t = type_of(op); V o = mkv(t, op.a[1]), n = mkv(t, op.a[2]);
                 char buf[1024]; char ts[4] = {'s', t, t, 0}; if (strlen(ADDRS[a]) > 200) stat_add(P_LONG_ADDR); if (op.a[3] & 1) stat_add(P_OTHER_TYPE);
-                rtosc_arg_t args[3]; args[0].s = ADDRS[a]; if (t == 'f') { args[1].f = o.f; args[2].f = n.f; } else { args[1].i = o.i; args[2].i = n.i; }
+                rtosc_arg_t args[3]; args[0].s = ADDRS[a]; put_arg(args[1], o); put_arg(args[2], n);
                 rtosc_amessage(buf, sizeof buf, "/undo_change", ts, args);
                 Model::Merge mg = model.classify(ADDRS[a], now_ms);
                 int cand = model.candidate(ADDRS[a]);
